@@ -58,8 +58,8 @@ OPTIONS = {
         'default': ('key = "key-default-inline"', b'key-default-inline'), 'builtin': None,
         'get': lambda rec: rec['args'].key},
     'password_file': {
-        'cli': (['-P', '@TMP@/pf_cli'], b'pw-file-cli'), 'env': ({'REPLICAT_PASSWORD': 'pw-env2'}, b'pw-env2'),
-        'profile': ('password-file = "@TMP@/pf_profile"', b'pw-file-profile'), 'default': ('password-file = "@TMP@/pf_default"', b'pw-file-default'), 'builtin': None,
+        'cli': (['-P', '@TMP@/pf_cli'], b'pw-file-cli\n'), 'env': ({'REPLICAT_PASSWORD': 'pw-env2'}, b'pw-env2'),
+        'profile': ('password-file = "@TMP@/pf_profile"', b'pw-file-profile\r\n'), 'default': ('password-file = "@TMP@/pf_default"', b'pw-file-default\n'), 'builtin': None,
         'get': lambda rec: rec['args'].password},
     'no_cache': {  # the option `no-cache` itself (how it combines with `cache-directory` is not a precedence question)
         'cli': (['--no-cache'], None), 'profile': ('no-cache = true', None),
@@ -164,8 +164,8 @@ def main():
         ns = tmp / 'ns' / 'replicat' / 'backends'
         ns.mkdir(parents=True)
         (ns / 'custom.py').write_text(CUSTOM)
-        for fname, content in (('kf_cli', b'key-cli'), ('kf_default', b'key-default'), ('kf_profile', b'key-profile-file'), ('pf_cli', b'pw-file-cli'),
-                               ('pf_profile', b'pw-file-profile'), ('pf_default', b'pw-file-default')):
+        for fname, content in (('kf_cli', b'key-cli'), ('kf_default', b'key-default'), ('kf_profile', b'key-profile-file'), ('pf_cli', b'pw-file-cli\n'),
+                               ('pf_profile', b'pw-file-profile\r\n'), ('pf_default', b'pw-file-default\n')):
             (tmp / fname).write_bytes(content)
         sys.path.insert(0, str(tmp / 'ns'))
         import replicat
